@@ -1,7 +1,7 @@
 """Texts of MANIFEST.json per property (level claimed, trusted base)."""
 
 NOT_YET = {p: "not claimed yet: model and check are still being built in this round (see DESIGN.md section 5); no other technique is substituted" for p in
-           ["C03", "C04", "C05", "C06", "C07", "C08", "C12", "C14", "C15"]}
+           ["C03", "C04", "C12", "C14", "C15"]}
 
 TEXTS = {
     "C01": {
@@ -13,6 +13,26 @@ TEXTS = {
         "text": "Proof: C02_reopen: from every state satisfying the invariant Close's steps (drain oldest first, then flush the active memtable) are enabled, end with every memtable in tables, keep the committed history and the invariant, and the counter Open recomputes from stored versions equals the counter before the restart (no timestamp reused); C02_reopen_reads: every key reads as before; C02_still_writable. Correspondence: Close/Open cycles with re-drawn configuration inside the db suite (immediately after rotation, non-empty queue, empty memtable), nextTs, leftover files and all reads compared.",
         "note": "Trusted as C01; table files parsed back by recovery: C11. wal replay after clean Close is empty (checked dynamically).",
         "technique": "Lean 4 proof that Close/Open is a sequence of invariant-preserving steps + differential replay",
+    },
+    "C05": {
+        "text": "Proof: Sys.step models Begin (timestamp, then wait for commitMark), Get, Set/Delete, Commit (commitStart under writeLock with conflict check, apply of the batch, commitDone), Discard, watermark publication and every background storage step, for any number of transactions; the coupling invariant SInv (storage content = entries of the applied commit history, version-discard watermark below every open reader, a transaction that has begun sees every commit up to its read timestamp applied) is proved for every step; C05_snapshot: every Get = own writes overlaid on the MVCC map at readTs, C05_stable, C05_prefix (whole transactions, prefix of commit order), C05_includes_earlier / C05_excludes_later (real-time clauses), C05_gc_safe. Correspondence: db suite with up to 6 interleaved open transactions incl. long-lived readers across rotation, flush, compaction with GC, every Get/readTs/watermark/compaction content replayed through the model.",
+        "note": "Trusted: Lean kernel, driver, harness/hooks, lock skeleton (re-extracted). Commit/Begin granularity as stated; the model's abstract oracle is proved coupled to the storage, not assumed.",
+        "technique": "Lean 4 coupling invariant (refinement of storage to an MVCC map under all interleavings) + differential replay",
+    },
+    "C06": {
+        "text": "Proof: C06_serial_reads (in every reachable state of every interleaving each store read of a transaction committed at c equals the MVCC value at c-1, i.e. what serial execution in commit-timestamp order gives; every read equals the value at readTs), C06_real_time and C06_commit_after_snapshot (a transaction begun after another's Commit succeeded is ordered after it), C06_validated (an accepted Commit read nothing overwritten in between: no lost update / write skew on read keys), C06_only_committed. Correspondence: interleaved transactions in the db suite; free-running goroutine histories (counters, transfers, write-skew pairs) checked against the serial order by commit timestamp in the txnconc suite.",
+        "note": "The Go scheduler's interleavings are covered at the modelled step granularity (tied by the skeleton); the serial-order checker of txnconc is a Go reimplementation of the spec used only for validation/search.",
+        "technique": "Lean 4 invariant proof (reads stable in the window (readTs, commitTs)) + differential replay + recorded-history validation",
+    },
+    "C07": {
+        "text": "Proof: C07_conflict_iff / C07_refused_iff: in every reachable state the Commit of a transaction that wrote something is refused iff a key it read from the store was written by a commit above its read timestamp — both directions, including histories in which the committed-transaction list is cleaned up under an arbitrarily lagging watermark and long-lived readers; C07_always_commit; C07_refused_applies_nothing. Correspondence: db suite (conflict outcome of every Commit compared), incl. reads of absent keys, deletes, reads after own writes.",
+        "note": "Read/write sets are keys (F14 fixed). Trusted as C05.",
+        "technique": "Lean 4 invariant proof of the oracle + differential replay",
+    },
+    "C08": {
+        "text": "Proof: C08_no_effect (Begin/Get/Set/Delete/Discard and refused or empty Commits change neither storage nor history nor counter), C08_history_only_committed (every commit any reader can observe was produced by a successful Commit with exactly its writes), C08_storage_only_history (tables and memtables hold only history entries, through flush/compaction/reopen steps); misuse decision logic stated outright (C08_write_in_readonly, C08_use_after_finish, C08_empty_key, C08_oversize, C08_after_close, C08_accepts) on the functions the driver executes. Correspondence: db suite with discards at every position, finished-handle misuse, empty keys, oversize values, calls after Close, across rotations and reopen.",
+        "note": "Update-closure errors are Discard (the closure's error path calls the deferred Discard). Trusted as C05.",
+        "technique": "Lean 4 frame + provenance invariants, decision logic stated outright + differential replay",
     },
     "C09": {
         "text": "Proof: theorems C09_preserves / C09_only_shadowed / C09_no_invention / C09_sorted_nonempty hold for every set of tables, every choice of compaction inputs, every watermark, every block size and every (key, ts >= watermark) — by induction over entry lists, no bound. The model (LSM.mergeVersions, discardStale, buildTable, search) is executable and is compared with level.go (flushToL0, checkAndCompact incl. cascades, recover, searchLowerBound) on generated layouts, output contents and all lookups of the universe; lookups are also compared with a brute-force specification proved correct (newestBrute_newest).",
